@@ -141,12 +141,14 @@ __CPROVER_ensures(nv_gcount <= nv_ver_counter && nv_ver_counter < 2000000000u &&
 #define NV_ELLIPSOID_GHOSTS , nv_sqrt_rec, nv_dot_rec
 #define NV_NONLS_ASSIGNS_X __CPROVER_assigns(nv_ver_counter, nv_gcount NV_ELLIPSOID_GHOSTS)
 /* C03 (ellipsoid): converged => the stopping test was evaluated in the iteration that returns: either g'Hg < machine epsilon was
- * computed after the last evaluation, or sqrt(g'Hg) < epsilon was evaluated after the last evaluation on the g'Hg of that iteration */
+ * computed after the last evaluation, or the value compared with epsilon is sqrt of the g'Hg of that iteration (the g'Hg computed
+ * right before the last evaluation).  WHEN the square root is taken inside the iteration is immaterial (sqrt is a function of its
+ * argument): a maintainer may hoist it into a local -- demanding "after the last evaluation" was a false alarm (benign C03-3) */
 #if defined(NV_C03)
 #define NV_ELLIPSOID_C03 \
 __CPROVER_ensures(NV_RET.m_status == NVE_solver_status_converged ==> ( \
      (nv_dot_rec.res < 2.220446049250313e-16 && nv_dot_rec.at == nv_ver_counter) \
-  || (nv_sqrt_rec.res < nv_epsilon && NV_SAME(nv_sqrt_rec.arg, nv_dot_rec.res) && nv_sqrt_rec.at == nv_ver_counter && nv_dot_rec.at + 1 == nv_ver_counter))) \
+  || (nv_sqrt_rec.res < nv_epsilon && NV_SAME(nv_sqrt_rec.arg, nv_dot_rec.res) && nv_sqrt_rec.at >= nv_dot_rec.at && nv_dot_rec.at + 1 == nv_ver_counter))) \
 /* C03 "the ellipsoid method always reports converged" (exit protocol): the loop is left without a decision of solver_t::done (status \
  * still max_iters) only because the evaluation budget is exhausted; in particular the degenerate-ellipsoid exit (g'Hg < machine \
  * epsilon) reports converged (or failed for an invalid state), never max_iters */ \
